@@ -48,3 +48,17 @@ func (g *Gen) healthSuite() []Stmt {
 		Emit(C(N("hdeep"), I(30))),
 	}
 }
+
+// ClosePrelude returns the declarations of mkc(id) and mkce(id): constructors
+// of closable values whose __close handler emits ("close", id, err), the second
+// one raising "ce<id>" afterwards.
+func ClosePrelude() []Stmt {
+	h1 := Fn([]string{"o", "e"}, Emit(S("close"), N("id"), N("e")))
+	mt1 := Tab(FK("__close", h1))
+	mkc := LocFn("mkc", Fn([]string{"id"}, Ret(CN("setmetatable", Tab(), mt1))))
+	raise := Do1(CN("error", B("..", S("ce"), N("id")), I(0)))
+	h2 := Fn([]string{"o", "e"}, Emit(S("close-raising"), N("id"), N("e")), raise)
+	mt2 := Tab(FK("__close", h2))
+	mkce := LocFn("mkce", Fn([]string{"id"}, Ret(CN("setmetatable", Tab(), mt2))))
+	return []Stmt{mkc, mkce}
+}
